@@ -123,16 +123,20 @@ def run_scenario(sc, max_loops=60000):
             from bacpypes.task import FunctionTask
             ft = FunctionTask(lambda d=devid: a.send_cpt(peers[d], req_payload))
             ft.install_task(when=net.vt.now + at)
-    until = None
+    # a virtual-time horizon far beyond anything the configured timeouts allow (every fault costs at most
+    # one timeout): a tree on which a transaction goes on for ever must not keep the harness busy for ever
+    # either — whatever is still alive at the horizon is reported by the residue / termination oracles
+    until = net.vt.now + sc.get("horizon", 200.0 + 5.0 * min(len(sc.get("faults", {})), 200))
     if bg:
         # run until the transactions are over, not until the far-future background timers
         until = net.vt.now + sc["background"].get("horizon", 120.0)
     ok = net.run(until=until, max_loops=max_loops)
+    quiesced = getattr(net.vt, "quiesced_at", None)
     for t in bg:
         t.suspend_task()
     res = {
-        "terminated": ok,
-        "elapsed": net.vt.now - t0,
+        "terminated": ok and (quiesced is not None or bool(bg)),
+        "elapsed": (quiesced if quiesced is not None else net.vt.now) - t0,
         "conf": [(round(c[0] - t0, 6), c[1], c[2], c[3]) for c in a.confirmations],
         "ind": [(round(i[0] - t0, 6), i[1], i[2]) for i in b.indications],
         "raised": a.raised,
